@@ -23,6 +23,8 @@ import SarpyModel.Drivers.XsdFmt
 import SarpyModel.Drivers.Kernels2
 import SarpyModel.Drivers.NitfAssembly
 import SarpyModel.Drivers.LifeGen
+import SarpyModel.Drivers.CheckerRules
+import SarpyModel.Drivers.CheckerGen
 import SarpyModel.Drivers.Tre
 import SarpyModel.Drivers.NitfDtype
 namespace Sarpy.Drivers
@@ -55,6 +57,8 @@ def step (line : String) : String :=
   | "k2" :: rest => (k2Step rest).getD "bad-op"
   | "nitfasm" :: rest => (nitfasmStep rest).getD "bad-op"
   | "lifegen" :: rest => (lifeGenStep rest).getD "bad-op"
+  | "chkspec" :: rest => (chkspecStep rest).getD "bad-op"
+  | "chkgen" :: rest => (chkgenStep rest).getD "bad-op"
   | "tre" :: rest => (treStep rest).getD "bad-op"
   | "nitfdtype" :: rest => (nitfdtypeStep rest).getD "bad-op"
   | _ => "bad-op"
